@@ -1,8 +1,22 @@
 //! Utility for UI XML generation.
 
 use super::XmlWriter;
+use quick_xml::escape;
 use quick_xml::events::{BytesStart, BytesText, Event};
 use std::io;
+
+/// Creates text event from the given content.
+///
+/// Unlike `BytesText::new()`, carriage return is also escaped since it would otherwise be
+/// normalized to line feed by XML parser.
+pub(super) fn escaped_text(content: &str) -> BytesText<'_> {
+    let escaped = escape::escape(content);
+    if escaped.contains('\r') {
+        BytesText::from_escaped(escaped.replace('\r', "&#13;"))
+    } else {
+        BytesText::from_escaped(escaped)
+    }
+}
 
 pub(super) fn write_tagged_str<W, S, T>(
     writer: &mut XmlWriter<W>,
@@ -16,7 +30,7 @@ where
 {
     let tag = BytesStart::new(tag.as_ref());
     writer.write_event(Event::Start(tag.borrow()))?;
-    writer.write_event(Event::Text(BytesText::new(content.as_ref())))?;
+    writer.write_event(Event::Text(escaped_text(content.as_ref())))?;
     writer.write_event(Event::End(tag.to_end()))?;
     Ok(())
 }
